@@ -404,10 +404,10 @@ void verif_c03_positive(osmium::io::detail::PBFPrimitiveBlockDecoder& d, osmium:
     (void)osmium::io::detail::next_utf8_codepoint(p, e);
     osmium::builder::RelationMemberListBuilder b;
     osmium::RelationMember m;
-    b.add_role(m, "x", 1);
+    b.add_role(m, *p, static_cast<std::size_t>(e - *p));
     osmium::io::detail::opl_parse_relation_members("n1", b);
     osmium::builder::TagListBuilder t;
-    t.add_tag("k", 1, "v", 1);
+    t.add_tag(*p, static_cast<std::size_t>(e - *p), e, std::strlen(e));
     osmium::io::detail::XMLParser::ExpatXMLParser x{nullptr};
     x("", true);
     std::string out;
